@@ -171,8 +171,12 @@ fn inputs_for(t: &Target, tier: &Tier, seed: u64, round: u64) -> Vec<Vec<Val>> {
     let tseed = mix(mix(seed, round), fnv64(format!("{}::{}", t.source_file, t.name).as_bytes()));
     let mut rng = Rng::stream(tseed, "inputs");
     // Generated instantiations are few and their interesting inputs are sparse: a larger sample.
-    let boost = if t.name.starts_with("gen_") { 3 } else { 1 };
-    let (cap, nrand) = if round == 0 { (tier.input_cap * boost, tier.n_random_inputs) } else { (0, tier.input_cap) };
+    let boost = if t.name.starts_with("gen_") && t.name != "gen_compose" { 3 } else { 1 };
+    let (mut cap, nrand) = if round == 0 { (tier.input_cap * boost, tier.n_random_inputs) } else { (0, tier.input_cap) };
+    // Composed functions have many hint occurrences per run: fewer inputs each.
+    if t.name == "gen_compose" {
+        cap = (cap / 3).max(if round == 0 { 4 } else { 0 });
+    }
     if t.params.is_empty() {
         if round == 0 { vec![vec![]] } else { vec![] }
     } else {
@@ -594,7 +598,7 @@ fn run(opts: Opts) -> i32 {
     ev.set("target_functions", json!(targets.len()));
     {
         let g = GEN_STATS.lock().unwrap();
-        ev.set("generated_instantiations", json!({"accepted_by_compiler": g.0, "rejected_by_compiler": g.1, "refused_or_crashed_after_sierra_generation": GEN_FAILED_LATE.lock().unwrap().clone(), "kinds": ["bounded_int_div_rem ranges", "downcast ranges", "bounded_int_constrain ranges"]}));
+        ev.set("generated_instantiations", json!({"accepted_by_compiler": g.0, "rejected_by_compiler": g.1, "refused_or_crashed_after_sierra_generation": GEN_FAILED_LATE.lock().unwrap().clone(), "kinds": ["bounded_int_div_rem ranges", "downcast ranges", "bounded_int_constrain ranges", "composed functions (2-6 hinted operations with a branch, a loop and locals)"]}));
     }
     let _ = std::fs::remove_dir_all(gen_dir());
     ev.set("target_functions_unsupported_signature", json!(total.skipped));
